@@ -346,4 +346,97 @@ theorem multi_dispatcher_safe (caps : List (List Nat)) (cfg : Cfg) (nd : Nat) (p
   have h := run_inv true caps ops _ (mkCP_inv true caps cfg nd pool hp (fun _ => hempty)) hops
   exact ⟨h.pool (h.noTwice rfl), h.noTwice rfl⟩
 
+/-- a work-group location returned by `algorithm.Next` is recorded as resident on the chosen CU -/
+theorem mapped_is_resident (b : Bool) (caps : List (List Nat)) (cp : CP) (i : Nat) (cp' : CP) (dl : DLoc)
+    (h : CPInv b caps cp) (hft : cp.fault ≠ some "twice") (hn : (cp.disp i).alg.hasNext = true)
+    (ha : algNext cp i = (cp', some dl)) :
+    ∃ d, (dl.key, d, dl.locs) ∈ (cp'.pool.getD dl.cu default).resident := by
+  have hd := h.disp i
+  cases hk : (cp.disp i).kern with
+  | none => rw [hk] at hd; have := hd.2; rw [this] at hn; cases hn
+  | some k =>
+    rw [hk] at hd
+    obtain ⟨hak, hKO, hnd, hpos, hnone, hsome⟩ := hd
+    have hlt : (cp.disp i).alg.numDispatched < k.numWG := by
+      simpa [Alg.hasNext, Alg.numWG, hak] using hn
+    have hp := h.pool hft
+    unfold algNext at ha
+    simp only [hak] at ha
+    cases hc : (cp.disp i).alg.currWG with
+    | none =>
+      simp only [hc] at ha
+      have hpn := hnone hc
+      generalize ht : tryCUs cp.nextKey (k.dem (cp.disp i).alg.pos)
+        (cuOrder cp.cfg.greedy cp.pool.length (cp.disp i).alg.nextCU) cp.pool = tr at ha
+      obtain ⟨r, pool'⟩ := tr
+      have spec := tryCUs_spec caps _ _ (nwf_pos k _ hKO (by omega)) _ cp.pool r pool' hp
+        (fun c hc => mem_cuOrder _ _ _ c hc) ht
+      cases r with
+      | placed c locs =>
+        simp only [Prod.mk.injEq, Option.some.injEq] at ha
+        obtain ⟨rfl, rfl⟩ := ha
+        exact ⟨_, spec.2.2.2.2 c locs rfl⟩
+      | none => simp at ha
+      | fault => simp at ha
+    | some w =>
+      obtain ⟨key, idx⟩ := w
+      obtain ⟨hi1, hi2⟩ := hsome key idx hc
+      simp only [hc] at ha
+      generalize ht : tryCUs key (k.dem idx)
+        (cuOrder cp.cfg.greedy cp.pool.length (cp.disp i).alg.nextCU) cp.pool = tr at ha
+      obtain ⟨r, pool'⟩ := tr
+      have spec := tryCUs_spec caps _ _ (nwf_pos k _ hKO (by omega)) _ cp.pool r pool' hp
+        (fun c hc => mem_cuOrder _ _ _ c hc) ht
+      cases r with
+      | placed c locs =>
+        simp only [Prod.mk.injEq, Option.some.injEq] at ha
+        obtain ⟨rfl, rfl⟩ := ha
+        exact ⟨_, spec.2.2.2.2 c locs rfl⟩
+      | none => simp at ha
+      | fault => simp at ha
+
+/-- `RegisterCU` leaves nothing resident -/
+theorem mkCU_resident (wf : List Nat) (s : Option Nat) (v : List (Option Nat)) (l : Option Nat) (cu : CU)
+    (h : mkCU wf s v l = some cu) : cu.resident = [] := by
+  unfold mkCU at h
+  simp only [bind, Option.bind_eq_some_iff, pure, Option.some.injEq] at h
+  obtain ⟨_, _, _, _, _, _, rfl⟩ := h
+  rfl
+
+/-- instance: one registered CU with a single SIMD, any number of dispatchers, any run -/
+example (cu : CU) (h : mkCU [2] (some 32) [some 256] (some 512) = some cu) (cfg : Cfg) (nd : Nat)
+    (ops : List Op) (hops : ∀ k, .launch k ∈ ops → KernOK k) :
+    PoolInv [[2]] (run (mkCP cfg nd [cu]) ops).pool ∧ (run (mkCP cfg nd [cu]) ops).fault ≠ some "twice" := by
+  have hinv : Inv [2] cu := mkCU_inv _ _ _ _ cu h rfl (by decide)
+  have hp : PoolInv [[2]] [cu] := by
+    refine ⟨rfl, ?_⟩
+    intro c hc
+    have : c = 0 := by simpa using hc
+    subst this
+    exact hinv
+  have hres : ∀ cu' ∈ [cu], cu'.resident = [] := by
+    intro cu' hcu'
+    simp only [List.mem_singleton] at hcu'
+    subst hcu'
+    exact mkCU_resident _ _ _ _ _ h
+  exact multi_dispatcher_safe [[2]] cfg nd [cu] ops hres hp hops
+
+example : KernOK ⟨1, 128, 64, 16, 4, 256⟩ ∧ (⟨1, 128, 64, 16, 4, 256⟩ : Kern).numWG = 2 ∧
+    1 ≤ (⟨1, 128, 64, 16, 4, 256⟩ : Kern).nwfOf 1 :=
+  ⟨⟨by decide, by decide⟩, by decide, by decide⟩
+
+/-- concrete run: the CU registered by `mkCU [2] (some 32) [some 256] (some 512)` (one VGPR unit), two
+    dispatchers with one kernel each: one work-group becomes resident, the other dispatcher and the
+    second work-group of the first kernel keep retrying with their own keys; no fault -/
+example :
+    mkCU [2] (some 32) [some 256] (some 512)
+      = some { wfFree := [2], smask := .lim [0, 0], vmasks := [.lim [0]], lmask := .lim [0, 0],
+               nextSIMD := 0, resident := [] } ∧
+    let cp := run (mkCP ⟨false, 0, 0, 0, 0⟩ 2
+        [{ wfFree := [2], smask := .lim [0, 0], vmasks := [.lim [0]], lmask := .lim [0, 0],
+           nextSIMD := 0, resident := [] }])
+      [.launch ⟨1, 128, 64, 16, 4, 256⟩, .launch ⟨2, 64, 64, 16, 4, 256⟩, .tick, .tick, .tick, .tick]
+    cp.fault = none ∧ cp.pool.map (·.resident.length) = [1] ∧ cp.nextKey = 3 := by
+  decide
+
 end C09
